@@ -155,11 +155,17 @@ def record_analysis(spec):
             kind = var[0]
             if kind == "swap":
                 r = analyze(np.vstack([y, x]), fs, spec)
+                if int(r.nf) != nf:          # the variant must be the same analysis: same bins (plans depend on N and the configuration only)
+                    ev.append({"t": "shape", "kind": "swap", "nf": int(r.nf), "ref": int(nf)})
+                    continue
                 for j in idx:
                     ev.append({"t": "swap", "j": j + 1, **bin_fields(r, j, s, hs)})
             elif kind == "alone":
                 for ch, rec in ((1, x), (2, y)):
                     r = analyze(rec, fs, spec)
+                    if int(r.nf) != nf:          # the variant must be the same analysis: same bins (plans depend on N and the configuration only)
+                        ev.append({"t": "shape", "kind": "alone", "nf": int(r.nf), "ref": int(nf)})
+                        continue
                     for j in idx:
                         ev.append({"t": "alone", "j": j + 1, "ch": ch, "gxx": qc(float(r.Gxx[j]) / s), "psd": qc(float(r.psd[j]) / s),
                                    "asd2": qc(float(r.asd[j]) ** 2 / s), "ps": qc(float(r.ps[j]) / (s * emax)), "enbw": qc(float(r.ENBW[j]) / emax),
@@ -167,19 +173,39 @@ def record_analysis(spec):
             elif kind == "scale":
                 _, cn, cd, dn, dd = var
                 r = analyze(np.vstack([x * cn / cd, y * dn / dd]), fs, spec)
+                if int(r.nf) != nf:          # the variant must be the same analysis: same bins (plans depend on N and the configuration only)
+                    ev.append({"t": "shape", "kind": "scale", "nf": int(r.nf), "ref": int(nf)})
+                    continue
                 for j in idx:
                     ev.append({"t": "scale", "j": j + 1, "cn": cn, "cd": cd, "dn": dn, "dd": dd, **bin_fields(r, j, s, hs)})
             elif kind == "tiny":
                 eps = 2.0 ** var[1]
                 r = analyze(np.vstack([x * eps, y * eps]), fs, spec)
+                if int(r.nf) != nf:          # the variant must be the same analysis: same bins (plans depend on N and the configuration only)
+                    ev.append({"t": "shape", "kind": "tiny", "nf": int(r.nf), "ref": int(nf)})
+                    continue
                 for j in idx:
                     ev.append({"t": "tiny", "j": j + 1, "e": int(var[1]), **bin_fields(r, j, s * eps * eps, hs)})
             elif kind == "relabel":
                 _, an, ad = var
                 r = analyze(np.vstack([x, y]), fs * an / ad, spec)
+                if int(r.nf) != nf:          # the variant must be the same analysis: same bins (plans depend on N and the configuration only)
+                    ev.append({"t": "shape", "kind": "relabel", "nf": int(r.nf), "ref": int(nf)})
+                    continue
                 for j in idx:
                     ev.append({"t": "relabel", "j": j + 1, "an": an, "ad": ad, "fq": qc(float(r.f[j]) / fs), "enbw": qc(float(r.ENBW[j]) / emax),
                                **bin_fields(r, j, s, hs)})
+            elif kind == "relabelx":
+                # the same samples labelled with a sampling rate a*fs for an arbitrary real a (hours <-> Hz): the recorder divides a out again,
+                # so every field must equal the reference bin's
+                a = float(var[1])
+                r = analyze(np.vstack([x, y]), fs * a, spec)
+                if int(r.nf) != nf:
+                    ev.append({"t": "shape", "kind": "relabelx", "nf": int(r.nf), "ref": int(nf)})
+                    continue
+                for j in idx:
+                    ev.append({"t": "relabelx", "j": j + 1, "fq": qc(float(r.f[j]) / (fs * a)), "enbw": qc(float(r.ENBW[j]) / (emax * a)),
+                               "L": int(r.L[j]), "Lref": int(ref.L[j]), "K": int(r.K[j]), "Kref": int(ref.K[j]), **bin_fields(r, j, s / a, hs)})
             elif kind == "enbw":
                 for j in idx:
                     L = int(ref.L[j])
@@ -317,6 +343,9 @@ def record_analysis(spec):
             elif kind == "gain":
                 g = var[1]
                 r = analyze(np.vstack([x, g * x]), fs, spec)
+                if int(r.nf) != nf:          # the variant must be the same analysis: same bins (plans depend on N and the configuration only)
+                    ev.append({"t": "shape", "kind": "gain", "nf": int(r.nf), "ref": int(nf)})
+                    continue
                 for j in idx:
                     hg = r.Hxy[j] / g
                     ev.append({"t": "gain", "hg": [qc(hg.real), qc(hg.imag)], "coh": qc(float(r.coh[j])), "dead": int(float(r.S2[j]) == 0.0)})
